@@ -197,12 +197,12 @@ impl Workload for InProcess {
 pub fn run(ctx: &Ctx) -> i32 {
     let mut acc = Acc::new(ctx);
     let p = Processes {
-        n: if ctx.quick() { 300 } else { 5000 },
+        n: if ctx.quick() { 600 } else { 5000 },
         runs: if ctx.quick() { 8 } else { 32 },
     };
     acc.pool(&p, "c06proc", false);
     let ip = InProcess {
-        n: if ctx.quick() { 3000 } else { 100_000 },
+        n: if ctx.quick() { 10_000 } else { 300_000 },
     };
     acc.pool(&ip, "c06inproc", false);
     if acc.stats.get("programs_byte_identical_across_processes") + acc.found.len() as u64 == 0 {
